@@ -31,7 +31,7 @@ PROPS = {
                        'in an owned per-call parameter; hence calls are pure functions of their arguments',
     },
     'C03': {
-        'extra': [('pyvc-own(copy-before-write)', extras.cow_check)],
+        'extra': [('pyvc-own(copy-before-write)', extras.cow_check), ('SET ordering', extras.set_order_check)],
         'assumptions': [GRAPH, 'SET member ordering, SET OF sorting, named-bit trailing-zero removal and DEFAULT omission in '
                         'MembersType are not under contract yet (see DESIGN.md, known defects 3, 4, 19, 21)',
                         'time types and REAL contents are not under contract'],
